@@ -93,3 +93,24 @@ Proof.
     rewrite Hones. apply usort_In.
   - congruence.
 Qed.
+
+(** * OfMany on its whole non-panic domain (positions >= size in any segment) *)
+Theorem OfMany_nonpanic subs sizes :
+  ofmany_dom2 subs sizes = true ->
+  exists r, OfMany subs sizes = Some r /\ spec_OfMany subs sizes r.
+Proof.
+  unfold ofmany_dom2. rewrite !andb_true_iff. intros [[[Hlen _] _] Hfit].
+  apply Nat.eqb_eq in Hlen. pose proof (OfMany_total subs sizes Hlen) as H.
+  unfold spec_Of_any in H. rewrite Hfit in H. exact H.
+Qed.
+
+(** the ascending domain is part of it *)
+Lemma sorted_fits l n : sortedb l = true -> nonnegb l = true -> of_fits l n = true.
+Proof.
+  intros Hs Hnn. unfold of_fits, of_size. apply forallb_forall. intros p Hp.
+  assert (0 <= p) by (now apply (proj1 (nonnegb_In l) Hnn)).
+  pose proof (sortedb_last_max l 0 Hs p Hp).
+  assert (Hne : l <> []) by (intros ->; destruct Hp).
+  pose proof (of_bits_last l n Hne). pose proof (of_bits_nonneg l n).
+  destruct (words_for_cover _ H2) as [Hc _]. lia.
+Qed.
